@@ -890,3 +890,6 @@ PROPS["C01"]["claim"] += (" no_renderer_side_panic (a stated-only definition sin
 PROPS["C15"]["claim"] += (" With totality (e2e round 4): c15_end_to_end_or_value_panic - for every byte string either all C15 conclusions hold of an HTML that "
     "EXISTS, or the block phase hit the one panic site not yet excluded (lastLine.Value in generateAutoHeadingID, atx_heading.go:203; searched: never "
     "observed).")
+PROPS["C09"]["claim"] += (" Round 4 of shiftsim: the class is now POSITIONAL (independent_blocks_positional, independent_blocks_wide; executable test "
+    "positionalCheck proved sound): a ends with a line feed and no line of a starts, after its quote markers and indentation, with a list, setext or fence "
+    "trigger - digits, dashes, stars, equal signs and backticks inside lines are allowed (ordinary prose).")
